@@ -58,6 +58,7 @@ pub struct Kernel {
     pub fiemap_split: u64,
     pub fiemap_round_eof: bool,
     pub fiemap_past_eof: u64,
+    pub fiemap_flagbits: u64,
     pub getdents: String,
     pub wake_any: bool,
 }
@@ -1828,7 +1829,12 @@ impl Sup {
                 e[0..8].copy_from_slice(&a.to_le_bytes());
                 e[8..16].copy_from_slice(&(0x1000_0000u64 + a).to_le_bytes());
                 e[16..24].copy_from_slice(&(b - a).to_le_bytes());
-                let flags: u32 = if last { 1 } else { 0 };
+                // informational flag bits real file systems set on extents that do hold data (unwritten-but-dirty after
+                // fallocate+write, delalloc, merged, shared, not-aligned): seeded per extent
+                let mut flags: u32 = if last { 1 } else { 0 };
+                if self.cfg.kernel.fiemap_flagbits != 0 && mix2(self.cfg.seed ^ a, 0xF1E) % 2 == 0 {
+                    flags |= self.cfg.kernel.fiemap_flagbits as u32;
+                }
                 e[40..44].copy_from_slice(&flags.to_le_bytes());
                 data.extend_from_slice(&e);
             }
